@@ -234,6 +234,10 @@ def a5(ctx, rep):
             return h
         return None
     tparam = next((q['name'] for q in f['params'] if q['name'] != 'attrs'), 'target_os')
+    if not [c for c in f['calls'] if c.get('f') == 'partition']:
+        # the decision model below reads the accepted / rejected sides as the two halves of one `partition` of the candidate
+        # stream; candidates accumulated some other way (a collector object with two lists) are not modelled — no verdict
+        raise core.Incomplete('A5: accept_target_os does not split the candidates with `partition`: which list is the accept side and whether every candidate reaches one of them is not modelled for this shape')
 
     def no_targets(x):
         x = expand(x)
